@@ -27,16 +27,11 @@ func sortNaturalFilter(array []any, key any) any {
 	case reflect.ValueOf(array).Len() == 0:
 	case key != nil:
 		sort.Sort(keySortable{result, func(m any) string {
-			rv := reflect.ValueOf(values.ToLiquid(m))
-			if rv.Kind() != reflect.Map || rv.Type().Key().Kind() != reflect.String {
-				return ""
-			}
-			ev := rv.MapIndex(reflect.ValueOf(fmt.Sprint(key)).Convert(rv.Type().Key()))
-			if ev.IsValid() && ev.CanInterface() {
-				// a Drop is the value it stands for
-				if s, ok := values.ToLiquid(ev.Interface()).(string); ok {
-					return strings.ToLower(s)
-				}
+			// the key is looked up as indexing does, in maps of every key type and in ordered maps;
+			// a Drop is the value it stands for
+			ev := values.ValueOf(values.ToLiquid(m)).IndexValue(values.ValueOf(fmt.Sprint(key)))
+			if s, ok := values.ToLiquid(ev.Interface()).(string); ok {
+				return strings.ToLower(s)
 			}
 			return ""
 		}})
